@@ -38,6 +38,9 @@ func cloneVal(v *Val) *Val {
 }
 
 func (s *shadow) writeBack() {
+	if s.basic {
+		return // basic value views are detached
+	}
 	for c := s; c.parent != nil; c = c.parent {
 		p := c.parent
 		if p.v.Kind != VSeq || int(c.slot) >= len(p.v.Seq) {
@@ -125,8 +128,30 @@ func genHistoryBody(g *Gen, w *bufio.Writer, t *Ty, v *Val, o histOpts) {
 				if h.t.N == 32 && g.Bool() {
 					op = "rset"
 				}
-				fmt.Fprintf(w, "%s %s %s\n", op, h.name, hexs(nb))
-				h.v = &Val{Kind: VBytes, Bytes: nb}
+				target := h
+				switch g.Intn(3) {
+				case 1: // write through a Copy: the original must not follow
+					nh++
+					cn := fmt.Sprintf("h%d", nh)
+					fmt.Fprintf(w, "copy %s %s\n", cn, h.name)
+					target = &shadow{name: cn, t: h.t, v: cloneVal(h.v), basic: true}
+					handles = append(handles, target)
+				case 2: // bind the view object into a tree first, then rewrite the object
+					if h.parent != nil && h.parent.v.Kind == VSeq && len(h.parent.v.Seq) > 0 {
+						j := uint64(g.Intn(len(h.parent.v.Seq)))
+						if et := elemTy(h.parent.t, j); et != nil && et.Kind == KBytesN && et.N == h.t.N {
+							fmt.Fprintf(w, "setv %s %d %s\n", h.parent.name, j, h.name)
+							c := cloneVal(h.parent.v)
+							c.Seq[j] = cloneVal(h.v)
+							h.parent.v = c
+							h.parent.writeBack()
+							fmt.Fprintln(w, "obs r")
+						}
+					}
+				}
+				fmt.Fprintf(w, "%s %s %s\n", op, target.name, hexs(nb))
+				target.v = &Val{Kind: VBytes, Bytes: nb}
+				fmt.Fprintf(w, "obs %s\n", target.name)
 				fmt.Fprintf(w, "obs %s\n", h.name)
 				fmt.Fprintln(w, "obs r")
 				if o.memo {
@@ -154,7 +179,8 @@ func genHistoryBody(g *Gen, w *bufio.Writer, t *Ty, v *Val, o histOpts) {
 			name := fmt.Sprintf("h%d", nh)
 			fmt.Fprintf(w, "get %s %s %d\n", name, h.name, n)
 			if h.v.Kind == VSeq && int(n) < len(h.v.Seq) {
-				handles = append(handles, &shadow{name: name, t: et, v: cloneVal(h.v.Seq[n]), parent: h, slot: n, basic: !isComposite(et)})
+				nsh := &shadow{name: name, t: et, v: cloneVal(h.v.Seq[n]), parent: h, slot: n, basic: !isComposite(et)}
+				handles = append(handles, nsh)
 			} else if h.v.Kind == VBits && int(n) < len(h.v.Bits) {
 				handles = append(handles, &shadow{name: name, t: et, v: &Val{Kind: VBool, B: h.v.Bits[n]}, basic: true})
 			}
@@ -171,6 +197,17 @@ func genHistoryBody(g *Gen, w *bufio.Writer, t *Ty, v *Val, o histOpts) {
 				ot := unionOpt(h.t, h.v.Sel)
 				handles = append(handles, &shadow{name: name, t: ot, v: cloneVal(h.v.Inner), basic: !isComposite(ot)})
 			}
+		case r < 30 && h.parent != nil && h.parent.v.Kind == VSeq && len(h.parent.v.Seq) > 1 && !h.parent.basic:
+			// bind this (hooked) sub-view's backing into another slot of its parent as well
+			j := uint64(g.Intn(len(h.parent.v.Seq)))
+			if et := elemTy(h.parent.t, j); et != nil && et.String() == h.t.String() {
+				fmt.Fprintf(w, "setv %s %d %s\n", h.parent.name, j, h.name)
+				c := cloneVal(h.parent.v)
+				c.Seq[j] = cloneVal(h.v)
+				h.parent.v = c
+				h.parent.writeBack()
+				mutated = true
+			}
 		default:
 			mutated = g.mutate(w, h)
 		}
@@ -179,6 +216,9 @@ func genHistoryBody(g *Gen, w *bufio.Writer, t *Ty, v *Val, o histOpts) {
 		}
 		if o.obsEvery || mutated {
 			fmt.Fprintln(w, "obs r")
+			if g.Chance(25) {
+				fmt.Fprintln(w, "blen r")
+			}
 			if h != root && g.Chance(50) {
 				fmt.Fprintf(w, "obs %s\n", h.name)
 			}
@@ -247,6 +287,16 @@ func (g *Gen) mutate(w *bufio.Writer, h *shadow) bool {
 	switch h.t.Kind {
 	case KVector, KContainer:
 		i, et := g.pickIndex(h)
+		if g.Chance(12) {
+			fmt.Fprintf(w, "setd %s %d\n", h.name, i)
+			if int(i) < len(h.v.Seq) {
+				c := cloneVal(h.v)
+				c.Seq[i] = DefaultVal(et)
+				h.v = c
+				return true
+			}
+			return false
+		}
 		nv := g.RandVal(et, 20)
 		fmt.Fprintf(w, "set %s %d %s\n", h.name, i, nv)
 		if int(i) < len(h.v.Seq) {
@@ -259,6 +309,25 @@ func (g *Gen) mutate(w *bufio.Writer, h *shadow) bool {
 	case KList:
 		r := g.Intn(100)
 		switch {
+		case r < 8:
+			fmt.Fprintf(w, "appd %s\n", h.name)
+			if uint64(len(h.v.Seq)) < h.t.N {
+				c := cloneVal(h.v)
+				c.Seq = append(c.Seq, DefaultVal(h.t.Elem))
+				h.v = c
+				return true
+			}
+			return false
+		case r < 14:
+			i, et := g.pickIndex(h)
+			fmt.Fprintf(w, "setd %s %d\n", h.name, i)
+			if int(i) < len(h.v.Seq) {
+				c := cloneVal(h.v)
+				c.Seq[i] = DefaultVal(et)
+				h.v = c
+				return true
+			}
+			return false
 		case r < 40:
 			nv := g.RandVal(h.t.Elem, 20)
 			fmt.Fprintf(w, "app %s %s\n", h.name, nv)
@@ -479,7 +548,8 @@ func candidateOps(t *Ty) []string {
 func genIterBoundaries(g *Gen, tier string, w *bufio.Writer) {
 	lens := []uint64{0, 1, 2, 31, 32, 33, 63, 64, 65}
 	for _, lim := range []uint64{0, 1, 2, 33, 64, 65, 1 << 20, 1 << 40} {
-		for _, e := range []*Ty{{Kind: KUint, N: 1}, {Kind: KUint, N: 2}, {Kind: KUint, N: 8}, {Kind: KUint, N: 32}, {Kind: KBytesN, N: 32}, {Kind: KBitlist, N: 5}} {
+		for _, e := range []*Ty{{Kind: KUint, N: 1}, {Kind: KUint, N: 2}, {Kind: KUint, N: 8}, {Kind: KUint, N: 32}, {Kind: KBytesN, N: 32}, {Kind: KBitlist, N: 5},
+			{Kind: KVector, N: 4, Elem: &Ty{Kind: KUint, N: 1}}, {Kind: KVector, N: 5, Elem: &Ty{Kind: KUint, N: 8}}, {Kind: KList, N: 4, Elem: &Ty{Kind: KUint, N: 2}}, {Kind: KBitvector, N: 9}} {
 			for _, n := range lens {
 				if n > lim {
 					continue
